@@ -88,7 +88,7 @@ class ConfigSpellings(Case):
     def all_props(self):
         return {"C07"}
 
-    CARRIERS = ("dict", "odict", "yaml", "json", "stringio", "path_yaml", "path_json", "xarray_attr")
+    CARRIERS = ("dict", "odict", "yaml", "json", "stringio", "path_yaml", "path_json", "xarray_attr", "xarray_vars")
 
     def carry(self, obj, carrier, tmp):
         import xarray as xr
@@ -120,7 +120,28 @@ class ConfigSpellings(Case):
             return Path(p)
         if carrier == "xarray_attr":
             return xr.Dataset(attrs={"ioos_qc_config": json.dumps(plain)})
+        if carrier == "xarray_vars":
+            # "the QC attributes of an xarray Dataset": one QC variable per (stream, module, test) with the
+            # ioos_qc_module / ioos_qc_test / ioos_qc_target / ioos_qc_config attributes.  Only a stream
+            # mapping whose tests all have a parameter mapping can be written this way.
+            import numpy as np
+
+            if not self._is_stream_mapping_with_params(plain):
+                return None
+            dvs = {}
+            for sid, mods in plain.items():
+                for mod, tests in mods.items():
+                    for test, params in tests.items():
+                        dvs["qc_%d" % len(dvs)] = xr.DataArray(np.zeros(2), dims=("obs",), attrs={"ioos_qc_module": mod, "ioos_qc_test": test, "ioos_qc_target": sid, "ioos_qc_config": json.dumps(params)})
+            return xr.Dataset(dvs)
         raise ValueError(carrier)
+
+    @staticmethod
+    def _is_stream_mapping_with_params(plain):
+        try:
+            return bool(plain) and all(isinstance(params, dict) and params for mods in plain.values() for tests in mods.values() for params in tests.values())
+        except AttributeError:
+            return False
 
     def layouts(self, contexts):
         """(layout name, object, default stream key or None) for every layout that can express `contexts`"""
@@ -145,7 +166,9 @@ class ConfigSpellings(Case):
                 continue
             with tempfile.TemporaryDirectory() as tmp:
                 try:
-                    src = self.carry(obj, carrier, tmp)
+                    src = None if (carrier == "xarray_vars" and layout != "stream-mapping") else self.carry(obj, carrier, tmp)
+                    if src is None:
+                        return None  # this carrier cannot express the layout
                     cfg = cfgm.Config(src, default_stream_key=sid) if sid is not None else cfgm.Config(src)
                     got = actual_calls(cfg)
                 except Exception as e:  # noqa: BLE001
